@@ -6,6 +6,18 @@ HOOK_COMMITS = ["0aadbb0", "f520fb1"]
 
 # id -> (engine, technique, level text, level note, design ref)
 CHECKS = {
+ "C01": ("E-HIST", "explicit-state model checking (stateright BFS to closure) with the real mutating methods as transition function, state = (real digraph, reference (V,A,w))",
+         "The reachable state graph of each model is closed: every reachable state x every action of the alphabet (all ordered pairs over V + two ids outside, self-loops, weights {1,2}) is executed on the real code and compared with the reference after every step (panic iff rejected and then unchanged, remove_arc's answer, full observation, has_arc on all id pairs, == against a fresh build). A closed search decides the property for histories of every length at that order and alphabet.",
+         "Trusted: apply_abs in hist.rs (the plain-set semantics), stateright's BFS. Orders <=3 (4 thorough) with full alphabet; larger orders only through AdjacencyMatrix word-boundary windows.",
+         "DESIGN.md 3.3, 5 C01"),
+ "C20": ("E-HIST", "explicit-state closure (stateright) of construction histories, then an all-pairs pass over the closed state set for ==, cmp, Hash, Clone",
+         "Same closures as C01 (initial states also include every generator, operator and From conversion). On the closed set: one internal value per abstract digraph whatever history reached it; for every ordered pair of states == iff same (V,A,w), cmp/partial_cmp consistent and antisymmetric, equal => equal hash; every transition is applied to a clone with the original compared before/after; is_complete() on every state.",
+         "Trusted: Debug rendering exposes all internal fields; DefaultHasher stands for 'hashing'.",
+         "DESIGN.md 5 C20"),
+ "C17": ("E-CONF+E-SCHED", "exhaustive sweep of the available_parallelism seam (Err, 1..16/33) x inputs; taskset conformance of the seam; exhaustive preemption-bounded schedule exploration (own DFS scheduler on shuttle)",
+         "Configurations: six deterministic threaded routines x every answer of available_parallelism in {Err,1..=16(33),...} x every pair of digraphs of order <=3 and structured families at orders 1..33(70); AdjacencyMap::union over every pair of key sets; seeded generators valid+repeatable per configuration. The seam is bound to reality: a thread-count-sensitive battery under taskset -c 0-(k-1) must equal the seam set to k. Schedules: all eight routines, every schedule with <=2 (3) preemptions, 2 (2-3) workers, single outcome = reference.",
+         "Trusted: shuttle's runtime (atomics as SeqCst); raw-pointer writes are not scheduling points (Miri race detector in C13 covers them).",
+         "DESIGN.md 3.5, 3.6, 5 C17"),
  "C02": ("E-ENUM", "bounded-exhaustive enumeration of all digraphs of order <= 4/5 x every query, executed on the real code against a set-based reference model",
          "Every digraph on 0..n (n<=4 quick, n<=5 thorough) in all five representations, every AdjacencyMap vertex set over small id pools (non-contiguous), and structured families at orders 8..65, with every query of the property compared with its set definition; nothing sampled. Decides the property for all inputs inside those bounds.",
          "Trusted: the reference definitions in engine/gv/src/refm.rs, rustc, the shadow manifest building /repo/src. Orders > 5 only through families; weights fixed to 1 here.",
